@@ -1,2 +1,81 @@
--- line-protocol driver for C07 (stub; replaced when the property is built)
-def main : IO Unit := IO.println "stub"
+import Verif.Model.Revocation
+/-!
+  Line-protocol driver for C07 (revocation).
+
+  `h reqs=<R>;<R>;… evs=<E>,<E>,…`
+      R = `<kind>:<key>:<tag>:<fault>:<crlFails>:<otherOK>`; kind = rx0 | rx1 (X.509 revocation without /
+          with CRL regeneration) | rs (SSH revocation) | nx (X.509 renew/rekey) | ns (SSH renew/rekey);
+          key = `x<hex>`; fault = n | b | a;   E = `s<thread>` | `r0`
+      output: one answer per request joined by `,` (ok already err revoked rerr other allowed drop pend),
+          then ` x=[<key>=<tag>,…] s=[…]` — both revoked tables sorted by key
+  `v s=x<hex>`     RevokeRequest.Validate's serial canonicalisation: `x<hex>` | `bad`
+-/
+open Verif Verif.Store Verif.Rev
+
+namespace C07
+
+def str? (t : String) : Option Str :=
+  if t.startsWith "x" then unhex (t.drop 1).toString else none
+
+def bool? (t : String) : Option Bool :=
+  if t = "1" then some true else if t = "0" then some false else none
+
+def lookup (kv : List (String × String)) (k : String) : Option String :=
+  (kv.find? (·.1 = k)).map (·.2)
+
+def kind? : String → Option Kind
+  | "rx0" => some (.revokeX false) | "rx1" => some (.revokeX true) | "rs" => some .revokeSSH
+  | "nx" => some .renewX | "ns" => some .renewSSH | _ => none
+
+def fault? : String → Option Fault
+  | "n" => some .none | "b" => some .before | "a" => some .after | _ => none
+
+def req? (t : String) : Option Req :=
+  match t.splitOn ":" with
+  | [k, key, tag, f, c, o] => do
+    pure { inp := { kind := (← kind? k), key := (← str? key), tag := (← tag.toNat?), fault := (← fault? f),
+                    crlFails := (← bool? c), otherOK := (← bool? o) } }
+  | _ => none
+
+def ev? (t : String) : Option Ev :=
+  if t.startsWith "s" then (t.drop 1).toString.toNat?.map .step
+  else if t.startsWith "r" then (t.drop 1).toString.toNat?.map .restart else none
+
+def list? {α : Type} (sep : String) (f : String → Option α) (t : String) : Option (List α) :=
+  if t = "-" then some [] else (t.splitOn sep).mapM f
+
+def outS : Out → String
+  | .pending => "pend" | .ok => "ok" | .already => "already" | .err => "err"
+  | .refusedRevoked => "revoked" | .refusedErr => "rerr" | .refusedOther => "other"
+  | .allowed => "allowed" | .dropped => "drop"
+
+def strLe : Str → Str → Bool
+  | [], _ => true
+  | _ :: _, [] => false
+  | a :: as, b :: bs => if a < b then true else if b < a then false else strLe as bs
+
+def tableS (m : Map Nat) : String :=
+  let es := m.mergeSort (fun a b => strLe a.1 b.1)
+  "[" ++ String.intercalate "," (es.map fun e => "x" ++ hex e.1 ++ "=" ++ toString e.2) ++ "]"
+
+def eval (line : String) : Option String := do
+  let fs := fields line
+  let kv := fs.filterMap fun f =>
+    match f.splitOn "=" with
+    | [k, v] => some (k, v)
+    | _ => none
+  match fs.head? with
+  | some "h" =>
+    let rs ← list? ";" req? (← lookup kv "reqs")
+    let evs ← list? "," ev? (← lookup kv "evs")
+    let s := machine.run ({ x509 := [], ssh := [] }, rs) evs
+    pure (String.intercalate "," (s.2.map (outS ·.out)) ++ " x=" ++ tableS s.1.x509 ++ " s=" ++ tableS s.1.ssh)
+  | some "v" =>
+    match canonSerial (← str? (← lookup kv "s")) with
+    | some c => pure ("x" ++ hex c)
+    | none => pure "bad"
+  | _ => none
+
+end C07
+
+def main : IO Unit := Verif.lineLoop fun l => (C07.eval l).getD "parse-error"
